@@ -553,3 +553,20 @@ ROUND7 = {
 }
 for _k, _v in ROUND7.items():
     CHECKS[_k]["rule"] += " Round 7: " + _v
+
+# Round 8 (fifth hunt, DESIGN 8.10): what each rule gained.
+ROUND8 = {
+    "C01": "Expect: 100-continue on HTTP/1.0 requests (no interim response there); the close option of the last request spelled Close / CLOSE / in a token list / on two lines, with a further request on the wire behind it that must not be served.",
+    "C02": "every segmentation is also run with the end of the stream reported by the read that delivers the last bytes (n > 0, io.EOF, as crypto/tls does).",
+    "C03": "unit client-redirect: the client follows 302s whose Location is drawn from spaces, tabs, control and non-ASCII bytes, stray '%': what it writes next is a well-formed request line over visible ASCII.",
+    "C04": "a 1xx or 204 response carries neither Content-Length nor Transfer-Encoding (unless the program sets the header itself).",
+    "C09": "preread-window with body limits 10 and 300 (known finding D162).",
+    "C10": "unit waiter-fresh-conn (MaxConns 1, waiting on, a peer that closes every request: at most 40 requests for 3 calls); regress: request-side close option in 6 spellings, WantConnectionCount on a new client.",
+    "C11": "unit body-or-error (until-close / Content-Length / chunked x stall beyond the read timeout / cut x buffered / streaming: the whole body or an error, the same on a second BodyE()); unit caller-connection-header (MaxConnDuration).",
+    "C14": "regress family lf-in-chunk-extension (a line feed inside a chunk extension in five spellings: never a smuggled request; without an error the body is what an LF-tolerant reader sees).",
+    "C15": "empty texts for path parameters (scalar and slice); two fields whose json names differ only in case.",
+    "C19": "unit finish-after-release: stream mode, two connections ordered by channels, a tracer that reads Request.Body() in Finish.",
+    "C20": "containers: a ***T with a nil level, a sub-field reference through a nil embedded pointer, [][]interface{}, []map[string]interface{}, map[string][]interface{}, [][]map[K]int with a struct key; binder-nested: embedded named slice, type with a customized decoder.",
+}
+for _k, _v in ROUND8.items():
+    CHECKS[_k]["rule"] += " Round 8: " + _v
